@@ -80,6 +80,10 @@ CLAIMS = {
    "Decides the structural clauses: provenance of every byte string reaching an output buffer in the encoder closure (~200 sinks: constant / blessed escaper / nested MarshalJSON / numeric-instant-duration text with constant format; string fields, receivers' own bytes, %s-formatted strings and non-escaping helpers are findings where the raw bytes first enter; parameters resolved at call sites); the escaper's tables mark no control byte, quote or backslash safe and are consulted; member names are compile-time constant terms; no encoder emits one member name twice on one path; every field is written by the writer kind its Go type calls for, instants with the RFC 3339 layout; every encoder returns nil or an opened-and-closed buffer. ~1240 obligations. NOT decided: comma placement for all set/unset combinations, NaN/Inf, invalid UTF-8 representation.",
    "Trusted: go/ssa, tables.go; encoding/json.Marshal and the copied escaper stringBytes escape per RFC 8259 given their tables; nested MarshalJSON outputs are valid inductively.",
    "byte-provenance (taint) analysis of output-buffer sinks + constant-table and duplicate-name rules", "3/C02"),
+ "C06": ("other",
+   "Decides structural necessary conditions for text to survive both codecs byte for byte: text already decoded by the JSON parser (fastjson GetStringBytes/StringBytes) is never handed to a JSON parser or a quote-stripping unmarshal method again, and never passes a byte-rewriting function (built on bytes/strings Replace*/Trim*/...) on its way into the stored value; the stored text reaches the escaper unrewritten; the gob forms put tag and text into the key and value slots and read them back from the same slots. Rewriters/re-parsers are discovered structurally. NOT decided: equality for concrete strings, the escaper's correctness beyond its tables (C02).",
+   "Trusted: go/ssa; fastjson GetStringBytes returns the decoded string value.",
+   "typestate / taint flow of decoded text on SSA (re-parse and rewrite sinks) + slot pairing", "3/C06"),
 }
 
 NOT_YET = "check not yet built in this round (planned, see DESIGN.md section 3); not claimed until it runs clean"
